@@ -98,6 +98,7 @@ func (fr *frame) havocLoop(st *PState, b *ssa.BasicBlock, ord int) {
 		}
 	}
 	impure := false
+	stateMod := false
 	traceMod := false
 	var views []*ViewVal
 	for blk := range fr.loopBody[b] {
@@ -138,6 +139,9 @@ func (fr *frame) havocLoop(st *PState, b *ssa.BasicBlock, ord int) {
 				if eff.unknown {
 					impure = true
 				}
+				if eff.state {
+					stateMod = true
+				}
 				if eff.trace {
 					traceMod = true
 				}
@@ -148,6 +152,9 @@ func (fr *frame) havocLoop(st *PState, b *ssa.BasicBlock, ord int) {
 	for _, v := range views {
 		state := Select(st.kv, v.Cell, SState)
 		st.kv = st.Name("kv", Store(st.kv, v.Cell, Store(state, v.Store, st.Fresh("store_loop", SStore))))
+	}
+	if stateMod && !impure {
+		st.kv = st.Fresh("kv_loop", SKV)
 	}
 	if traceMod && !impure {
 		n := st.Fresh("traceN_loop", SInt)
@@ -252,11 +259,12 @@ func (fr *frame) havocByAddrExpr(st *PState, addr ssa.Value, et types.Type) {
 type callEff struct {
 	views   []*ViewVal // stores written through views known before the loop
 	unknown bool       // may write anything
+	state   bool       // may write the chain state (not the heaps, not the trace)
 	trace   bool
 }
 
 var pureInvokes = map[string]bool{"Valid": true, "Key": true, "Value": true, "Close": true, "Error": true, "String": true, "Get": true, "Has": true,
-	"Next": true, "MustMarshal": true, "MustUnmarshal": true, "Marshal": true, "Unmarshal": true, "Logger": true, "Debug": true, "Info": true, "Domain": true}
+	"Next": true, "With": true, "Warn": true, "MustMarshal": true, "MustUnmarshal": true, "Marshal": true, "Unmarshal": true, "Logger": true, "Debug": true, "Info": true, "Domain": true}
 
 // callEffects over-approximates what a call inside a loop may modify.
 func (fr *frame) callEffects(st *PState, c *ssa.CallCommon, depth int) callEff {
@@ -286,6 +294,13 @@ func (fr *frame) callEffects(st *PState, c *ssa.CallCommon, depth int) callEff {
 		return eff
 	}
 	q := f.String()
+	if pv := fr.top.contract.Flags["pure"]; pv != "" {
+		for _, sub := range strings.Split(pv, ",") {
+			if sub = strings.TrimSpace(sub); sub != "" && strings.Contains(q, sub) {
+				return eff
+			}
+		}
+	}
 	if strings.HasPrefix(q, "(github.com/cosmos/cosmos-sdk/store/prefix.Store).") {
 		if strings.HasSuffix(q, ".Set") || strings.HasSuffix(q, ".Delete") {
 			if v, ok := fr.valOrNil(st, c.Args[0]).(*ViewVal); ok {
@@ -308,8 +323,14 @@ func (fr *frame) callEffects(st *PState, c *ssa.CallCommon, depth int) callEff {
 			if m == "trace" {
 				eff.trace = true
 			} else if m != "" {
-				eff.unknown = true
+				eff.state = true
+				if strings.HasPrefix(m, "*") || strings.HasPrefix(m, "heap[") {
+					eff.unknown = true
+				}
 			}
+		}
+		if len(ct.Emits) > 0 {
+			eff.trace = true
 		}
 		return eff
 	}
@@ -346,6 +367,7 @@ func (fr *frame) bodyEffects(st *PState, f *ssa.Function, depth int) callEff {
 					eff.unknown = true
 				}
 				eff.unknown = eff.unknown || e.unknown
+				eff.state = eff.state || e.state
 				eff.trace = eff.trace || e.trace
 			}
 		}
